@@ -5,6 +5,8 @@
 EXTENDS TomlDoc, TomlLex, TomlGen, Json
 
 CONSTANTS MaxPath, EMIT, RICH,
+          INLINE,   \* statements are the pairs of one inline table `t = { ... }` (closed world, key/values only)
+          NARROW,   \* deep-narrow alphabet: chain headers a, a.a, a.a.a, a.b and keys a, b, c, b.a (longer sequences)
           UNIFORM   \* spell every key bare and every dot without spaces (repeated segments identical)
 
 KA == <<97>>
@@ -14,13 +16,21 @@ Paths == UNION {[1..k -> Keys] : k \in 1..MaxPath}
 KP(p) == [j \in 1..Len(p) |-> [s |-> p[j], sp |-> NoSpan]]
 One == VI(FALSE, <<1>>, NoSpan)
 E1(k, v) == Entry(k, v, FALSE, NoSpan)
-Vals == {One, VA(<<>>, NoSpan), VT(<<>>, NoSpan)}
-        \cup (IF RICH THEN {VA(<<One>>, NoSpan),
+Vals == {One} \cup (IF RICH >= 1 THEN {VA(<<>>, NoSpan), VT(<<>>, NoSpan)} ELSE {})
+        \cup (IF RICH >= 2 THEN {VA(<<One>>, NoSpan),
                             VT(<<E1(KA, One)>>, NoSpan),
                             VT(<<E1(KA, VT(<<E1(KB, One), E1(KA, One)>>, NoSpan))>>, NoSpan)}
               ELSE {})
-MCStmts == {[kind |-> kd, path |-> KP(p), val |-> Dummy] : kd \in {"std", "aot"}, p \in Paths}
-           \cup {[kind |-> "kv", path |-> KP(p), val |-> v] : p \in Paths, v \in Vals}
+KC == <<99>>
+WideStmts == {[kind |-> kd, path |-> KP(p), val |-> Dummy] : kd \in {"std", "aot"}, p \in Paths}
+             \cup {[kind |-> "kv", path |-> KP(p), val |-> v] : p \in Paths, v \in Vals}
+NarrowStmts == {[kind |-> kd, path |-> KP(p), val |-> Dummy] : kd \in {"std", "aot"}, p \in {<<KA>>, <<KA, KA>>, <<KA, KA, KA>>, <<KA, KB>>}}
+               \cup {[kind |-> "kv", path |-> KP(p), val |-> One] : p \in {<<KA>>, <<KB>>, <<KC>>, <<KB, KA>>}}
+\* second deep-narrow alphabet: arrays of tables re-entered through their parent
+Narrow2Stmts == {[kind |-> kd, path |-> KP(p), val |-> Dummy] : kd \in {"std", "aot"}, p \in {<<KA>>, <<KA, KB>>}}
+                \cup {[kind |-> "kv", path |-> KP(p), val |-> One] : p \in {<<KA>>, <<KA, KA>>, <<KB, KA>>, <<KB, KA, KB>>}}
+InlineStmts == {[kind |-> "kv", path |-> KP(p), val |-> v] : p \in Paths, v \in Vals}
+MCStmts == IF INLINE THEN InlineStmts ELSE IF NARROW = 1 THEN NarrowStmts ELSE IF NARROW = 2 THEN Narrow2Stmts ELSE WideStmts
 
 \* spelling choices are a function of the position so that every spelling meets every context
 Style(i, j) == IF UNIFORM THEN 0 ELSE (i + j) % 3
@@ -33,7 +43,10 @@ StmtText(s, i) ==
        [] s.kind = "kv" -> pt \o <<32, 61, 32>> \o ValueTextD(s.val)
 RECURSIVE DocText(_, _)
 DocText(h, i) == IF i > Len(h) THEN <<>> ELSE StmtText(h[i], i) \o <<10>> \o DocText(h, i + 1)
-RenderDoc(h) == DocText(h, 1)
+RECURSIVE PairsT(_, _)
+PairsT(h, i) == IF i > Len(h) THEN <<>>
+                ELSE StmtText(h[i], i) \o (IF i < Len(h) THEN <<44, 32>> ELSE <<>>) \o PairsT(h, i + 1)
+RenderDoc(h) == IF INLINE THEN <<116, 32, 61, 32, 123>> \o PairsT(h, 1) \o <<125, 10>> ELSE DocText(h, 1)
 
 \* direction G: one case per behaviour
 Emit == EMIT => PrintT(ToJson([text |-> RenderDoc(hist), n |-> Len(hist)]))
@@ -42,7 +55,7 @@ Emit == EMIT => PrintT(ToJson([text |-> RenderDoc(hist), n |-> Len(hist)]))
 GenLexAgree ==
   LET p == ParseDocument(RenderDoc(hist)) IN
   /\ p.res = res
-  /\ res # "rej" => Plain(p.tree) = Plain(Tree(st))
+  /\ res # "rej" => Plain(p.tree) = (IF INLINE THEN [k |-> "t", v |-> <<[key |-> <<116>>, val |-> Plain(Tree(st))]>>] ELSE Plain(Tree(st)))
 
 \* non-vacuity: each combination C09 lists as permitted is reachable (negations fail when enabled)
 HasPromoted == \E p \in DOMAIN st.ns : st.ns[p].prom
